@@ -11,7 +11,7 @@ LEVEL = "exploration"
 WORKERS = {"quick": 8, "thorough": 16}
 BUDGET = {"quick": 150, "thorough": 420}
 MIN_NONTRIVIAL = {"quick": 1500, "thorough": 25000}
-REQUIRED_HOOKS = ["evaluate:I", "evaluate:C", "isinstance", "type-eq", "dunder-result-class"]
+REQUIRED_HOOKS = ["absorbed-error-form", "long-container-form", "evaluate:I", "evaluate:C", "isinstance", "type-eq", "dunder-result-class"]
 RULE = (
     "Well-typed expressions from the type-directed generator (every operator, function, macro, conversion and accessor at the root and nested, static type known) "
     "are evaluated under both runners and observed two ways: (1) the class of the value handed back to the caller must be the library class for the static "
@@ -207,12 +207,79 @@ def root_programs(rnd):
     return out
 
 
+def check_src(acc, src, t, env, origin, shape):
+    """Hand-written program of static type t: class of the returned value and type(e) == T."""
+    benv = MV.cel_env(env)
+    want = static_class(t)
+    acc.nt([src, origin])
+    for r in "IC":
+        out = core.api_eval(r, src, benv)
+        acc.hook("evaluate:" + r)
+        acc.hook("isinstance")
+        acc.evaluations += 1
+        if out[0] != "V":
+            acc.cell(origin, r, "api", shape, want, "not-a-value")
+            continue
+        errs = class_errors(out[1], t)
+        acc.cell(origin, r, "api", shape, want, "ok" if not errs else "wrong-class")
+        if errs:
+            p, oc, ec = errs[0]
+            acc.violation(
+                f"{r} api {origin} {shape} {p} is {oc} not {ec}",
+                f"{'interpreted' if r == 'I' else 'compiled'}: {src[:140]!r} returned {oc} at {p}, static type {want} requires {ec}",
+                {"src": src, "bindings": MV.enc_env(env), "runner": r, "mode": "api", "type": core.jkey(t)},
+            )
+        o2 = core.api_eval(r, f"[type({src}) == {want}, type({src}) == {'int' if want != 'int' else 'bool'}]", benv)
+        acc.hook("type-eq")
+        acc.evaluations += 1
+        got = [x[1] for x in o2[1][1]] if o2[0] == "V" and o2[1][0] in ("ListType", "list") else None
+        acc.cell(origin, r, "type()", shape, want, "ok" if got == [True, False] else "wrong")
+        if got != [True, False]:
+            acc.violation(
+                f"{r} type() {origin} {shape} {'matching-name-false' if got and not got[0] else 'other'}",
+                f"{'interpreted' if r == 'I' else 'compiled'}: [type(e) == {want}, type(e) == another] for e = {src[:120]!r} gave {got if got is not None else core.jkey(o2)[:60]}, expected [true, false]",
+                {"src": src, "bindings": MV.enc_env(env), "runner": r, "mode": "type", "type": core.jkey(t)},
+            )
+
+
+# results produced on the ERROR-ABSORBING paths (an element or operand fails, another one decides) and on LONG containers
+ABSORBED = [
+    ("[0, 1, 4].exists(x, 4 / x == 1)", "bool", "exists"), ("[0, 2].all(x, 4 / x == 1)", "bool", "all"), ("[4, 0].exists(x, 4 / x == 1)", "bool", "exists"), ("[2, 0].all(x, 4 / x == 1)", "bool", "all"),
+    ("1 / 0 > 0 || true", "bool", "||"), ("true || 1 / 0 > 0", "bool", "||"), ("false && 1 / 0 > 0", "bool", "&&"), ("1 / 0 > 0 && false", "bool", "&&"), ("true ? 1 : 1 / 0", "int", "?:"),
+    ("false ? 1 / 0 : 2u", "uint", "?:"), ("[1, 2].exists(x, x == 2 || [][0])", "bool", "exists"), ("[[0, 1], [2]].map(l, l.exists(x, 2 / x == 2))", ("list", "bool"), "map"),
+    ("[0, 1].exists(x, 1 / x == 1) ? 'y' : 'n'", "string", "?:"), ("![0, 1].exists(x, 1 / x == 1)", "bool", "!"), ("[0, 1].exists(x, 1 / x == 1) && [0, 2].all(x, 4 / x == 1) == false", "bool", "&&"),
+    ("{'a': 1}.exists(k, {'a': 1}[k] == 1 || {}[k] == 1)", "bool", "exists"), ("[1, 2, 3].exists_one(x, x == 2)", "bool", "exists_one"), ("has({'a': 1}.a) || 1 / 0 > 0", "bool", "||"),
+]
+LONG_FORMS = [
+    ("(n - 1) in l", "bool", "in"), ("n in l", "bool", "in"), ("0 in l", "bool", "in"), ("('k' + string(n - 1)) in m", "bool", "in"), ("'nope' in m", "bool", "in"), ("l + l", ("list", "int"), "+"),
+    ("size(l)", "int", "size"), ("l == l", "bool", "=="), ("l != l + [1]", "bool", "!="), ("l.map(x, x + 1)", ("list", "int"), "map"), ("l.filter(x, x >= 0)", ("list", "int"), "filter"), ("l.all(x, x >= 0)", "bool", "all"),
+    ("l.exists(x, x == n - 1)", "bool", "exists"), ("l.exists_one(x, x == 0)", "bool", "exists_one"), ("s + s", "string", "+"), ("size(s)", "int", "size"), ("s.contains('ab')", "bool", "contains"),
+    ("s == s + ''", "bool", "=="), ("s < s + 'a'", "bool", "<"), ("l[n - 1]", "int", "index"), ("m['k0']", "int", "index"), ("m == m", "bool", "=="), ("size(m)", "int", "size"), ("b + b", "bytes", "+"), ("size(b)", "int", "size"),
+    ("l.map(x, x in l)", ("list", "bool"), "map"), ("m.all(k, k in m)", "bool", "all"), ("[n in l, 1 in l]", ("list", "bool"), "list"), ("{'in': 1 in l}", ("map", "string", "bool"), "map-literal"),
+]
+
+
 def run(ctx):
     acc = ctx.acc
     rnd = ctx.rnd
     core.celpy()
     mon = DunderMonitor(acc)
     mon.install()
+    for i, (src, t, shape) in enumerate(ABSORBED):
+        if ctx.mine(i):
+            acc.hook("absorbed-error-form")
+            check_src(acc, src, t, {}, "absorbed-error", shape)
+    i = 0
+    for n in (8, 17, 31, 32, 33, 64, 65, 129, 257, 1025):
+        env = {
+            "l": ("list", tuple(("int", v) for v in range(n))), "n": ("int", n), "s": ("string", "ab" * (n // 2) + "c"), "b": ("bytes", b"xy" * (n // 2)),
+            "m": ("map", tuple((("string", "k%d" % v), ("int", v)) for v in range(n))),
+        }
+        for src, t, shape in LONG_FORMS:
+            i += 1
+            if ctx.mine(i):
+                acc.hook("long-container-form")
+                check_src(acc, src, t, env, "long-container", shape)
     # systematic: every production at the root
     g0 = tgen.TGen(rnd, small=True, maxdepth=2)
     k = 0
